@@ -1,8 +1,10 @@
 """C24 — batch create == sequence of single creates.
 Correspondence: generated argument vectors / std types / pre-existing tables, both ways on the real create functions,
-vs C24.Model (descriptor interpreters fold_col / batch_col / fold_ok / batch_ok), per column and for the rejection.
+vs C24.Model (descriptor interpreters fold_col / batch_col / fold_ok / batch_ok) and C24.ModelX (descriptors with conditional
+columns: sgen, shunt, impedance, *_from_parameters pairs, bus_dc; run_switch: element / connectivity / index checks of
+create_switch(es); run_cost_l: duplicate-cost checks with et / power_type per element), per column and for the rejection.
 Oracle: the property itself on the real tables (rows equal on every column but name/geo; same inputs rejected) for
-every create pair incl. those without a Coq descriptor (sgen, shunt, impedance, *_from_parameters, switch, costs)."""
+every create pair."""
 import copy, math, warnings
 from fractions import Fraction
 import numpy as np, pandas as pd
@@ -13,13 +15,16 @@ from vf import c24_kinds as ck
 RULE = ("per create pair: 1-4 elements, random argument vectors from dyadic grids (omitted / scalar / vector / NaN-like entries "
         "for NaN-capable arguments), random std types with distinctive values and random optional parameters, 0-2 pre-existing "
         "rows (optional columns present or not), explicit / automatic index incl. duplicates and clashes, non-existent buses; "
-        "cost checks with pre-existing poly/pwl costs; switch batches over lines/trafos/buses. non-trivial = at least 2 elements "
+        "cost checks with pre-existing poly/pwl costs, et and power_type as one string or per element; switch batches over lines/trafos/3W trafos/buses "
+        "incl. unknown element types, unknown elements, buses not at the element, explicit indices and pre-existing switches. non-trivial = at least 2 elements "
         "and (a NaN-like entry, a std type with optional parameters, an explicit index or pre-existing rows)")
 ASSUMPTIONS = ["value-level comparison: an absent column, NaN, None, '' and the strings 'nan'/'None' (astype(str) of a missing value) are the same (absent) value; columns name/geo/std_type are not compared",
                "arguments are compared by value; **kwargs are not generated (except alpha/temperature, which create_lines only takes as kwargs)"]
-TRUSTED = ["pandas concat / .at / .loc semantics as observed on the new rows", "harness/vf/c24_kinds.py (argument domains, both-ways driver)"]
+TRUSTED = ["pandas concat / .at / .loc semantics as observed on the new rows", "context values passed to the model with the arguments: net.bus.vn_kv.at[bus] (shunts), existence of the column generator_type (sgens)", "harness/vf/c24_kinds.py (argument domains, both-ways driver)"]
 
 MODELLED = ["bus", "load", "storage", "gen", "ward", "line", "trafo", "trafo3w"]
+XMODELLED = ["sgen", "shunt", "impedance", "line_par", "trafo_par", "trafo3w_par", "bus_dc"]     # C24/ModelX.v (conditional columns)
+BUS_VN = dict(zip(ck.BUS_IDS, [110., 110., 20., 20., 10., 10.]))
 TRAFO_DROPPED = {"shift_degree", "tap_neutral", "tap_max", "tap_min", "tap_side", "tap_step_percent", "tap_step_degree", "tap_changer_type",
                  "tap_pos", "tap2_neutral", "tap2_max", "tap2_min", "tap2_side", "tap2_step_percent", "tap2_step_degree",
                  "tap2_changer_type", "tap2_pos"}
@@ -95,6 +100,14 @@ def classify(kind, case, res, diff, rej_diff):
         if not rej_diff and set(diff) <= {"generator_type", "k", "lrc_pu", "max_ik_ka"}:
             return "C24-sgens-generator-type"
         return "spec"
+    if kind == "bus_dc":
+        if not rej_diff and set(diff) <= {"min_vm_pu", "max_vm_pu"}:
+            for c in diff:
+                vs = args.get(c, [])
+                if not any(isinstance(v, str) and v.startswith("NANLIKE") for v in vs) and c in args:
+                    return "spec"
+            return "C24-vm-limit-default-missing-in-batch"
+        return "spec"
     if kind == "line_par":
         z = ["r0_ohm_per_km", "x0_ohm_per_km", "c0_nf_per_km"]
         if not rej_diff and set(diff) <= set(z) | {"g0_us_per_km"}:
@@ -115,6 +128,8 @@ def model_term(kind, case, res):
     tabs = {"bus": ck.BUS_IDS, K["table"]: info["idx_before"]}
     if kind == "bus":
         tabs = {"bus": info["idx_before"]}
+    if kind == "bus_dc":
+        tabs = {"bus_dc": info["idx_before"]}
     if kind == "ward":
         tabs["storage"] = info["storage_idx"]
     tabs_t = cq.lst(["(%s, %s)" % (cq.s(k), cq.lst([cq.z(i) for i in v])) for k, v in tabs.items()])
@@ -123,13 +138,18 @@ def model_term(kind, case, res):
         d = {k: v[i] for k, v in case["args"].items()}
         for sname in case["nodes"]:
             d[sname] = case["nodes"][sname][i]
+        if kind == "shunt" and d["bus"] in BUS_VN:           # context value net.bus.vn_kv.at[bus]
+            d["bus:vn_kv"] = BUS_VN[d["bus"]]
+        if kind == "sgen":                                   # context value: the column exists before the calls
+            d["col:generator_type"] = "generator_type" in info["cols_before"]
         els.append(amap(d))
     idxs = "None" if case["index"] is None else "(Some %s)" % cq.lst([cq.z(i) for i in case["index"]])
     cols = res["qcols"]
     cols_t = cq.lst(["(%s, {| oc_ex := %s; oc_vals := %s |})" % (cq.s(c), cq.b(c in info["cols_before"]),
                                                                cq.lst([cell(v) for v in res["pre_vals"].get(c, [None] * len(info["idx_before"]))]))
                      for c in cols])
-    return "run_kind %s %s %s %s %s %s" % (cq.s(kind), tabs_t, amap(_std_for_model(case)), idxs, cq.lst(els), cols_t)
+    return "%s %s %s %s %s %s %s" % ("run_xkind" if kind in XMODELLED else "run_kind", cq.s(kind), tabs_t, amap(_std_for_model(case)),
+                                     idxs, cq.lst(els), cols_t)
 
 
 def run_kind_case(ctx, kind, case):
@@ -218,10 +238,10 @@ def gen_and_run_kinds(ctx):
             if "std_names" in case:
                 ctx.count("line_std_list_%s" % ("mixed" if len(set(case["std_names"])) > 1 else "homogeneous"))
             # the Coq model takes one std type for all elements: heterogeneous lists are checked by the oracle only
-            if kind in MODELLED and set(case.get("std_names", ["S"])) == {"S"}:
+            if kind in MODELLED + XMODELLED and set(case.get("std_names", ["S"])) == {"S"}:
                 terms.append(model_term(kind, case, res))
                 keep.append((kind, case, res, diff, rej_diff))
-    model = ctx.coq_eval("c24", "Base.QN C24.Model", terms, shard=45)
+    model = ctx.coq_eval("c24", "Base.QN C24.Model C24.ModelX", terms, shard=45)
     for (kind, case, res, diff, rej_diff), mod in zip(keep, model):
         m_inc, m_chk = compare_model(ctx, kind, case, res, mod)
         # the guard computed by the Coq model must explain every observed difference of a modelled kind
@@ -254,64 +274,87 @@ def cost_cases(ctx):
         et = rng.choice(["gen", "load"])
         is_poly = rng.random() < 0.5
         pt = rng.choice(["p", "q"])
+        et_list = rng.random() < 0.4
+        mixed = et_list and rng.random() < 0.6            # et (and power_type) differ per element
+        ets = [rng.choice(["gen", "load"]) for _ in range(n)] if mixed else [et] * n
+        pts = [rng.choice(["p", "q"]) for _ in range(n)] if (mixed and not is_poly and rng.random() < 0.6) else [pt] * n
+        if mixed and rng.random() < 0.5:
+            els = [els[0]] * n                            # same element, told apart by et / power_type only
         a = copy.deepcopy(net); b = copy.deepcopy(net)
         rs = False
-        for e in els:
+        for e, t, q_ in zip(els, ets, pts):
             try:
                 if is_poly:
-                    pp.create_poly_cost(a, e, et, 2.0)
+                    pp.create_poly_cost(a, e, t, 2.0)
                 else:
-                    pp.create_pwl_cost(a, e, et, [[0, 2, 3]], power_type=pt)
+                    pp.create_pwl_cost(a, e, t, [[0, 2, 3]], power_type=q_)
             except UserWarning:
                 rs = True
                 break
         rb = False
-        et_list = rng.random() < 0.3
-        et_arg = [et] * n if et_list else et
+        et_arg = ets if et_list else et
+        pt_arg = pts if len(set(pts)) > 1 else pts[0]
         try:
             if is_poly:
                 pp.create_poly_costs(b, els, et_arg, [2.0] * n)
             else:
-                pp.create_pwl_costs(b, els, et_arg, [[[0, 2, 3]]] * n, power_type=pt)
+                pp.create_pwl_costs(b, els, et_arg, [[[0, 2, 3]]] * n, power_type=pt_arg)
         except UserWarning:
             rb = True
-        case = {"kind": "cost", "is_poly": is_poly, "poly": poly, "pwl": pwl, "elements": els, "et": et_arg, "power_type": pt}
+        case = {"kind": "cost", "is_poly": is_poly, "poly": poly, "pwl": pwl, "elements": els, "et": et_arg, "power_type": pt_arg}
+        hom = len(set(ets)) == 1 and len(set(pts)) == 1
+        if hom:
+            et, pt = ets[0], pts[0]
         g = len(set(els)) == len(els) and not any(e in els and t == et for e, t, _ in poly + pwl)
         ctx.case(case, nontrivial=bool(poly or pwl) or not g)
-        ctx.count("cost_cases_list_et" if et_list else "cost_cases")
+        ctx.count("cost_cases_list_et_mixed" if mixed else "cost_cases_list_et" if et_list else "cost_cases")
         if rs != rb:
             ctx.violation("spec", "costs: single calls %s, batch call %s" % ("reject" if rs else "accept", "rejects" if rb else "accepts"), case)
             ctx.count("oracle_diff_cost")
         elif not rs and not rb:
             ta, tb = ("poly_cost", "poly_cost") if is_poly else ("pwl_cost", "pwl_cost")
-            ca = a[ta][["element", "et"]].values.tolist()
-            cb = b[tb][["element", "et"]].values.tolist()
-            if [[int(x), str(y)] for x, y in ca] != [[int(x), str(y)] for x, y in cb]:
+            cols = ["element", "et"] + ([] if is_poly else ["power_type"])
+            ca = a[ta][cols].values.tolist()
+            cb = b[tb][cols].values.tolist()
+            if [[str(y) for y in x] for x in ca] != [[str(y) for y in x] for x in cb]:
                 ctx.violation("spec", "cost rows differ: %s vs %s" % (ca, cb), case)
         mk = lambda l: cq.lst(["(mkcost %s %s %s)" % (cq.z(e), cq.s(t), cq.s(p)) for e, t, p in l])
-        terms.append("run_cost %s %s %s %s %s %s" % (cq.b(is_poly), mk(poly), mk(pwl), cq.lst([cq.z(e) for e in els]), cq.s(et), cq.s(pt)))
-        keep.append((case, rs, rb, g))
-    model = ctx.coq_eval("c24cost", "Base.QN C24.Model", terms, shard=300)
-    for (case, rs, rb, g), m in zip(keep, model):
+        items = cq.lst(["(mkitem %s %s %s)" % (cq.z(e), cq.s(t), cq.s(q_)) for e, t, q_ in zip(els, ets, pts)])
+        if hom:
+            terms.append("OL [run_cost %s %s %s %s %s %s; run_cost_l %s %s %s %s]" % (
+                cq.b(is_poly), mk(poly), mk(pwl), cq.lst([cq.z(e) for e in els]), cq.s(et), cq.s(pt), cq.b(is_poly), mk(poly), mk(pwl), items))
+        else:
+            terms.append("OL [OL []; run_cost_l %s %s %s %s]" % (cq.b(is_poly), mk(poly), mk(pwl), items))
+        keep.append((case, rs, rb, g, hom))
+    model = ctx.coq_eval("c24cost", "Base.QN C24.Model C24.ModelX", terms, shard=300)
+    for (case, rs, rb, g, hom), (m, ml) in zip(keep, model):
         ctx.corr_checked += 1
-        if [rs, rb, g] != m[:3]:
-            ctx.disagreement("cost check: impl (fold rejects, batch rejects, guard)=%s model=%s" % ([rs, rb, g], m), case)
-        if m[3] != m[1]:
-            ctx.count("cost_cases_old_check_would_differ")
+        if hom:
+            if [rs, rb, g] != m[:3]:
+                ctx.disagreement("cost check: impl (fold rejects, batch rejects, guard)=%s model=%s" % ([rs, rb, g], m), case)
+            if m[3] != m[1]:
+                ctx.count("cost_cases_old_check_would_differ")
+        if [rs, rb] != ml:
+            ctx.disagreement("cost check (per-element et / power_type): impl (fold rejects, batch rejects)=%s model=%s" % ([rs, rb], ml), case)
 
 
-# ------------------------------------------------------------------ switches (oracle only)
+# ------------------------------------------------------------------ switches (oracle + correspondence with C24.ModelX.run_switch)
 def switch_cases(ctx):
     rng = ctx.rng
     tmpl = pp.create_empty_network()
     pp.create_buses(tmpl, 6, 20.)
     pp.create_lines_from_parameters(tmpl, [0, 1, 2, 3], [1, 2, 3, 4], 1.0, 0.1, 0.1, 10., 0.5)
     pp.create_transformers_from_parameters(tmpl, [0, 4], [5, 5], 1., 20., 20., 1., 5., 1., 0.1)
+    tmpl3 = copy.deepcopy(tmpl)
+    pp.create_transformer3w_from_parameters(tmpl3, 0, 2, 4, 20., 20., 20., 1., 1., 1., 1., 1., 1., .1, .1, .1, 1., .1, index=3)
+    terms, keep = [], []
     for it in range(ctx.n(80, 800)):
-        net = copy.deepcopy(tmpl)
+        net = copy.deepcopy(tmpl3 if rng.random() < 0.3 else tmpl)
+        for _k in range(rng.choice([0, 0, 1, 2])):                 # pre-existing switches
+            pp.create_switch(net, 0, 1, "b", index=rng.choice([None, 4, 7]) if _k == 0 else None)
         n = rng.choice([1, 2, 3])
         mode = rng.random()
-        ets = [rng.choice(["l", "t", "b"]) for _ in range(n)]
+        ets = [rng.choice(["l", "t", "b", "l", "t", "b", "t3", "x"]) for _ in range(n)]
         if mode < 0.4:
             ets = [ets[0]] * n
         buses, els = [], []
@@ -319,42 +362,73 @@ def switch_cases(ctx):
             n, mode, ets = 2, 0.9, ["l", "l"]
         for et in ets:
             if et == "l":
-                e = rng.randrange(4)
-                b = rng.choice([net.line.from_bus.at[e], net.line.to_bus.at[e]]) if rng.random() < 0.8 else rng.randrange(6)
+                e = rng.randrange(4) if rng.random() < 0.9 else 6
+                b = rng.choice([net.line.from_bus.at[e], net.line.to_bus.at[e]]) if rng.random() < 0.8 and e < 4 else rng.randrange(7)
             elif et == "t":
-                e = rng.randrange(2)
-                b = rng.choice([net.trafo.hv_bus.at[e], net.trafo.lv_bus.at[e]]) if rng.random() < 0.8 else rng.randrange(6)
+                e = rng.randrange(2) if rng.random() < 0.9 else 3
+                b = rng.choice([net.trafo.hv_bus.at[e], net.trafo.lv_bus.at[e]]) if rng.random() < 0.8 and e < 2 else rng.randrange(7)
+            elif et == "t3":
+                e = 3 if rng.random() < 0.8 else 0
+                b = rng.choice([0, 2, 4]) if rng.random() < 0.8 else rng.randrange(7)
             else:
-                e = rng.randrange(6); b = rng.randrange(6)
+                e = rng.randrange(7); b = rng.randrange(7)
             buses.append(int(b)); els.append(int(e))
         if it == 0:
             buses, els = [0, 2], [1, 0]
         closed = [rng.random() < 0.5 for _ in range(n)]
+        index = None
+        if rng.random() < 0.35:
+            index = rng.sample([0, 1, 2, 4, 5, 7, 9], n)
+            if n > 1 and rng.random() < 0.2:
+                index[-1] = index[0]
         a = copy.deepcopy(net); b_ = copy.deepcopy(net)
+        before = len(net.switch)
         rs = None
         for i in range(n):
             try:
-                pp.create_switch(a, buses[i], els[i], ets[i], closed=closed[i])
+                with warnings.catch_warnings():
+                    warnings.simplefilter("ignore")
+                    pp.create_switch(a, buses[i], els[i], ets[i], closed=closed[i], index=None if index is None else index[i])
             except Exception as e:
                 rs = type(e).__name__
                 break
         rb = None
         et_arg = ets[0] if (mode < 0.4 and rng.random() < 0.5) else ets
         try:
-            pp.create_switches(b_, buses, els, et_arg, closed=closed)
+            with warnings.catch_warnings():
+                warnings.simplefilter("ignore")
+                pp.create_switches(b_, buses, els, et_arg, closed=closed, index=index)
         except Exception as e:
             rb = type(e).__name__
-        case = {"kind": "switch", "buses": buses, "elements": els, "et": et_arg, "closed": closed}
+        case = {"kind": "switch", "buses": buses, "elements": els, "et": et_arg, "closed": closed, "index": index,
+                "pre_index": [int(i) for i in net.switch.index], "t3": len(net.trafo3w) > 0}
         ctx.case(case, nontrivial=n >= 2)
         ctx.count("switch_cases")
+        ctx.count("switch_" + ("rejected" if rs or rb else "accepted"))
         if (rs is None) != (rb is None):
             ctx.violation("spec", "switch: single calls %s, batch call %s" % (rs or "accept", rb or "accepts"), case)
             ctx.count("oracle_diff_switch")
         elif rs is None:
             ca = a.switch[["bus", "element", "et", "closed"]].values.tolist()
             cb = b_.switch[["bus", "element", "et", "closed"]].values.tolist()
-            if ca != cb:
+            if ca != cb or list(a.switch.index) != list(b_.switch.index):
                 ctx.violation("spec", "switch rows differ %s vs %s" % (ca, cb), case)
+        rows = lambda df, cols: cq.lst(["(mkrow %s %s)" % (cq.z(i), cq.lst([cq.z(df[c].at[i]) for c in cols])) for i in df.index])
+        terms.append("run_switch %s %s %s %s %s %s %s" % (
+            cq.lst([cq.z(i) for i in net.bus.index]), rows(net.line, ["from_bus", "to_bus"]), rows(net.trafo, ["hv_bus", "lv_bus"]),
+            rows(net.trafo3w, ["hv_bus", "mv_bus", "lv_bus"]), cq.lst([cq.z(i) for i in net.switch.index]),
+            "None" if index is None else "(Some %s)" % cq.lst([cq.z(i) for i in index]),
+            cq.lst(["(mksw %s %s %s)" % (cq.z(buses[i]), cq.z(els[i]), cq.s(ets[i])) for i in range(n)])))
+        keep.append((case, rs, rb, [int(i) for i in a.switch.index[before:]] if rs is None else None,
+                     [int(i) for i in b_.switch.index[before:]] if rb is None else None))
+    model = ctx.coq_eval("c24sw", "Base.QN C24.Model C24.ModelX", terms, shard=300)
+    for (case, rs, rb, ia, ib), m in zip(keep, model):
+        ctx.corr_checked += 1
+        for name, r, idx, mm in (("single", rs, ia, m[0]), ("batch", rb, ib, m[1])):
+            if isinstance(mm, cq.Err) != (r is not None):
+                ctx.disagreement("switch %s: impl %s model %s" % (name, r or "accepts", mm), case)
+            elif r is None and [int(i) for i in mm] != idx:
+                ctx.disagreement("switch %s: index impl %s model %s" % (name, idx, mm), case)
 
 
 def _conn(net, et, e):
@@ -392,8 +466,8 @@ def replay(ctx, rec):
             res = run_kind_case(ctx, case["kind"], case)
         ctx.case(case, nontrivial=True)
         oracle(ctx, case["kind"], case, res)
-        if case["kind"] in MODELLED:
-            mod = ctx.coq_eval("c24r", "Base.QN C24.Model", [model_term(case["kind"], case, res)])[0]
+        if case["kind"] in MODELLED + XMODELLED:
+            mod = ctx.coq_eval("c24r", "Base.QN C24.Model C24.ModelX", [model_term(case["kind"], case, res)])[0]
             compare_model(ctx, case["kind"], case, res, mod)
     else:
         ctx.notes.append("replay of cost/switch cases: re-running the generators with the recorded seed reproduces the case")
